@@ -779,6 +779,9 @@ def main(args: Any) -> int:
     w1_worker_deps(rep, args.tier)
     w2_transactions(rep, args.tier)
     w3_interface_functions(rep)
+    from vf import c07_replay
+
+    c07_replay.run(rep, args.tier)
     rep.bounds.append("W2 (worker side): SCCs of 1-2 (quick) / 1-3 modules; per module write_cache result, can_skip_diagnostics and ignored_files membership symbolic; a commit of a module's meta file commits its shard")
     rep.bounds.append("W1 (worker side): every DAG among 3/4 single-module SCCs, every dependency-closed set of SCCs the worker already holds, per module the broadcast interface hash absent / pre-run / current")
     rep.add_ctx("coordinator scheduling under all arrival orders", tot, partitions=len(parts), schedules=sched, longest_schedule_waits=maxsteps)
